@@ -38,13 +38,17 @@ pub(crate) mod __verif_k {
         }
     }
 
+    pub fn mk_text(t: &str) -> Object {
+        String::from_string(RString::from(t))
+    }
+
     /// reference model of a value
     #[derive(Clone, Copy, PartialEq)]
     pub enum M {
         Null,
         Bool(bool),
         Int(isize),
-        Func(u32, u16),
+        Func(u32, u16, u8),
         Float(u64),
         Str(u8),
         Arr(u8),
@@ -86,7 +90,8 @@ pub(crate) mod __verif_k {
             _ => {
                 let ip: u32 = kani::any();
                 let nl: u16 = kani::any();
-                (Object::function(ip, nl), M::Func(ip, nl))
+                let ar: u8 = kani::any();
+                (Object::function_with_arity(ip, nl, ar), M::Func(ip, nl, ar))
             }
         }
     }
@@ -127,6 +132,13 @@ pub(crate) mod __verif_k {
         }
     }
 
+    pub fn word(o: Object) -> usize {
+        o.0 as usize
+    }
+    pub fn from_word(w: usize) -> Object {
+        Object(w as *mut u8)
+    }
+
     pub fn ty_of(o: Object) -> u8 {
         (o.0 as usize & TAG_MASK) as u8
     }
@@ -162,13 +174,17 @@ pub(crate) mod __verif_k {
     fn c15_function_roundtrip() {
         let ip: u32 = kani::any();
         let nl: u16 = kani::any();
-        let o = Object::function(ip, nl);
+        let ar: u8 = kani::any();
+        let o = Object::function_with_arity(ip, nl, ar);
         assert!(o.tag() == Type::Function);
         let [a, b] = o.as_function();
         assert!(a == ip);
         assert!(b == nl as u32);
+        assert!(o.function_arity() == ar);
         assert!(!o.is_heap_allocated());
-        kani::cover!(ip == u32::MAX && nl == u16::MAX);
+        let p = Object::function(ip, nl);
+        assert!(p.tag() == Type::Function && p.as_function() [0] == ip && p.as_function()[1] == nl as u32 && p.function_arity() == 0);
+        kani::cover!(ip == u32::MAX && nl == u16::MAX && ar == u8::MAX);
     }
 
     #[kani::proof]
@@ -236,8 +252,8 @@ pub(crate) mod __verif_k {
                 M::Null => assert!(x.tag() == Type::Null),
                 M::Bool(b) => assert!(x.tag() == Type::Bool && x.as_bool() == b),
                 M::Int(i) => assert!(x.tag() == Type::Int && x.as_int() == i),
-                M::Func(ip, nl) => {
-                    { let f = x.as_function(); assert!(x.tag() == Type::Function && f[0] == ip && f[1] == nl as u32) }
+                M::Func(ip, nl, ar) => {
+                    { let f = x.as_function(); assert!(x.tag() == Type::Function && f[0] == ip && f[1] == nl as u32 && x.function_arity() == ar) }
                 }
                 _ => (),
             }
@@ -275,7 +291,7 @@ pub(crate) mod __verif_k {
             (M::Null, M::Null) => true,
             (M::Bool(x), M::Bool(y)) => x == y,
             (M::Int(x), M::Int(y)) => x == y,
-            (M::Func(a1, a2), M::Func(b1, b2)) => a1 == b1 && a2 == b2,
+            (M::Func(a1, a2, a3), M::Func(b1, b2, b3)) => a1 == b1 && a2 == b2 && a3 == b3,
             (M::Float(x), M::Float(y)) => f64::from_bits(x) == f64::from_bits(y),
             (M::Str(x), M::Str(y)) => x == y, // table entries are pairwise different texts
             _ => false,
@@ -781,10 +797,11 @@ pub(crate) mod __verif_k {
     #[kani::stub(std::fmt::format, fmt_stub)]
     fn c06_function_eq() {
         let (i1, n1, i2, n2): (u32, u16, u32, u16) = (kani::any(), kani::any(), kani::any(), kani::any());
+        let (a1, a2): (u8, u8) = (kani::any(), kani::any());
         let mut gc = std::mem::ManuallyDrop::new(GC::new());
                 let gc: &mut GC = &mut gc;
-        match Object::function(i1, n1).eq(Object::function(i2, n2), gc) {
-            Ok(o) => assert!(o.as_bool() == (i1 == i2 && n1 == n2)),
+        match Object::function_with_arity(i1, n1, a1).eq(Object::function_with_arity(i2, n2, a2), gc) {
+            Ok(o) => assert!(o.as_bool() == (i1 == i2 && n1 == n2 && a1 == a2)),
             Err(_) => assert!(false),
         }
         kani::cover!(i1 == i2 && n1 != n2);
